@@ -306,8 +306,9 @@ func c06Sponge(c *Ctx) {
 		// block structure
 		blockLoop := edgesMatching(b, "bin<<>(ind<+243>(0), p2)")
 		if name == "Absorb" {
-			resetLoop := edgesMatching(b, "bin<<>(ind<+1>(0), 243)")
-			resetExit := plainEdges(edgesMatching(b, "bin<>=>(ind<+1>(0), 243)"))
+			// j = 0..242 as a counted loop or as a range over l[:243] / h[:243]
+			resetLoop := edgesMatching(b, "bin<<>(ind<+1>(0), alt(243, len(slice(_, 0, 243))))")
+			resetExit := plainEdges(edgesMatching(b, "bin<>=>(ind<+1>(0), alt(243, len(slice(_, 0, 243))))"))
 			var stL, stH bool
 			for _, blk := range fn.Blocks {
 				for _, ins := range blk.Instrs {
